@@ -498,3 +498,146 @@ func (s *Sim) CrashRecampaign(p *Profile) {
 		s.electAmong(F1)
 	}
 }
+
+// SnapThenAppend: a follower gets a snapshot and, before its application has
+// looked at the resulting Ready, also the appends that follow it: the leader
+// is told the snapshot went through (ReportSnapshot) and a heartbeat response
+// that was already on its way un-pauses it. The follower's next Ready (or
+// MsgStorageAppend) then carries a snapshot and entries together, and one
+// acknowledgement covers both.
+func (s *Sim) SnapThenAppend(p *Profile) {
+	d := s.D
+	s.begin("SnapThenAppend")
+	l := s.leaderNode()
+	if l == nil {
+		return
+	}
+	var others []*Node
+	for _, n := range s.upNodes() {
+		if n.ID != l.ID {
+			others = append(others, n)
+		}
+	}
+	if len(others) == 0 {
+		return
+	}
+	f := others[d.Int(0, len(others)-1, "laggard")]
+	// f falls behind the leader's compaction point; the log goes on after it
+	s.Isolate(f)
+	for i, k := 0, d.Int(2, 4, "props"); i < k && l.Up; i++ {
+		s.Propose(l, s.drawSize(p))
+	}
+	s.stabilize(4)
+	if !l.Up || !s.isLeader(l) {
+		s.Heal()
+		return
+	}
+	if lo, hi := s.compactRange(l); hi > lo {
+		s.Compact(l, hi, hi)
+	}
+	for i, k := 0, d.Int(1, 3, "more"); i < k && l.Up; i++ {
+		s.Propose(l, s.drawSize(p))
+	}
+	s.stabilize(3)
+	s.Heal()
+	// run until the snapshot for f is in flight, and hold it
+	var snap *Flight
+	for r := 0; r < 10 && snap == nil && l.Up && f.Up; r++ {
+		if r%2 == 0 {
+			s.tick(l)
+		}
+		for _, n := range s.upNodes() {
+			s.service(n)
+		}
+		for _, fl := range s.Net.Pool {
+			if fl.M.GetType() == pb.MsgSnap && fl.To == f.ID && fl.From == l.ID && !fl.Held {
+				snap = fl
+				fl.Held = true
+				break
+			}
+		}
+		if snap == nil {
+			s.stabilize(1)
+		}
+	}
+	if snap == nil || !l.Up || !f.Up {
+		return
+	}
+	s.Stats.inc("macro.snapthenapp_snapshot_held")
+	// a heartbeat overtakes the snapshot; f answers it, the answer is held
+	for i := 0; i < l.Opts.HeartbeatTick && l.Up; i++ {
+		s.tick(l)
+	}
+	s.service(l)
+	for again := true; again; {
+		again = false
+		for i, fl := range s.Net.Pool {
+			if fl.M.GetType() == pb.MsgHeartbeat && fl.To == f.ID && fl.From == l.ID && !fl.Held && !s.Net.blocked(fl.From, fl.To) {
+				s.Deliver(i, false)
+				again = true
+				break
+			}
+		}
+	}
+	if f.Up {
+		s.service(f)
+	}
+	var resp *Flight
+	for _, fl := range s.Net.Pool {
+		if fl.M.GetType() == pb.MsgHeartbeatResp && fl.From == f.ID && fl.To == l.ID {
+			resp = fl
+			fl.Held = true
+		}
+	}
+	if resp == nil || !f.Up || !l.Up {
+		snap.Held = false
+		return
+	}
+	// now the snapshot arrives; f's application does not look at it yet
+	snap.Held = false
+	for i, fl := range s.Net.Pool {
+		if fl == snap {
+			s.Deliver(i, false)
+			break
+		}
+	}
+	// the transport reports the snapshot as sent
+	for k := len(s.Net.Owed) - 1; k >= 0; k-- {
+		if o := s.Net.Owed[k]; o.To == f.ID && o.Leader == l.ID {
+			s.ReportSnap(k, false)
+			break
+		}
+	}
+	// the held heartbeat response un-pauses the leader
+	for _, fl := range s.Net.Pool {
+		if fl.M.GetType() == pb.MsgHeartbeatResp && fl.From == f.ID && fl.To == l.ID {
+			fl.Held = false
+		}
+	}
+	for i, fl := range s.Net.Pool {
+		if fl == resp {
+			s.Deliver(i, false)
+			break
+		}
+	}
+	if l.Up {
+		s.service(l)
+	}
+	// its appends reach f before f handles the snapshot
+	n := 0
+	for again := true; again && f.Up; {
+		again = false
+		for i, fl := range s.Net.Pool {
+			if fl.M.GetType() == pb.MsgApp && fl.To == f.ID && fl.From == l.ID && !fl.Held && !s.Net.blocked(fl.From, fl.To) {
+				s.Deliver(i, false)
+				n++
+				again = true
+				break
+			}
+		}
+	}
+	if n > 0 {
+		s.Stats.inc("macro.snapthenapp_appends_before_ready")
+	}
+	s.stabilize(d.Int(2, 6, "rounds"))
+}
